@@ -607,27 +607,11 @@ func (e StdEng) Outer(a, b, prealloc Tensor) (err error) {
 	var lda int
 	switch {
 	case pdo.IsColMajor():
-		aShape := a.Shape().Clone()
-		bShape := b.Shape().Clone()
-		if err = a.Reshape(aShape[0], 1); err != nil {
-			return err
-		}
-		if err = b.Reshape(1, bShape[0]); err != nil {
-			return err
-		}
-
-		if err = e.MatMul(a, b, prealloc); err != nil {
-			return err
-		}
-
-		if err = b.Reshape(bShape...); err != nil {
-			return
-		}
-		if err = a.Reshape(aShape...); err != nil {
-			return
-		}
-		return nil
-
+		// the storage of a column-major (m,n) matrix is that of the row-major (n,m) matrix of the transposed product, b ⊗ a.
+		// (This used to reshape the caller's operands into matrices and back, which moved or dropped their pending transposes.)
+		ad, bd = bd, ad
+		m, n = n, m
+		lda = pd.Shape()[0]
 	case pdo.IsRowMajor():
 		lda = pd.Shape()[1]
 	}
